@@ -116,13 +116,10 @@ def create_data_from_grid(grid: List[torch.Tensor]) -> torch.Tensor:
     assert all(axis.dim() == 1 for axis in grid)
     projections = torch.meshgrid(*grid, indexing="ij")
     grid_tensor = torch.stack(projections, axis=-1)
-    # Note that if we did
-    #     grid_data = grid_tensor.reshape(-1, ndims)
-    # instead, we would be iterating through the points of our grid from the
-    # last data dimension to the first data dimension. However, due to legacy
-    # reasons, we need to iterate from the first data dimension to the last data
-    # dimension when creating grid_data
-    grid_data = grid_tensor.permute(*(reversed(range(ndims + 1)))).reshape(ndims, -1).transpose(0, 1)
+    # Iterate through the points of the grid from the last data dimension (fastest) to the first data dimension
+    # (slowest): this is the flattened index that Interpolation.interpolate produces and that the Kronecker product
+    # K_0 x K_1 x ... in GridKernel indexes, so interpolation weights and grid covariances refer to the same grid point.
+    grid_data = grid_tensor.reshape(-1, ndims)
     return grid_data
 
 
